@@ -29,7 +29,7 @@ def self_comparison_rule(F, r, module_prefixes, what):
 
 # call sites where passing one value for two same-typed parameters is intended (callee suffix per enclosing function), with the reason
 DUP_OK = {
-    ("IndividualStorageFactory", "new_with_dedup"): "a GSOM node's elite population uses node_size both as capacity and as selection size",
+    ("IndividualStorageFactory", ""): "a GSOM node's elite population uses node_size both as capacity and as selection size (whatever constructor / helper builds it)",
 }
 # call sites where two arguments are deliberately passed crosswise to the parameters bearing their names
 SWAP_OK = {
